@@ -20,7 +20,7 @@ import (
 var conflictPairs = []family{
 	{"arr", []string{"init.a"}, []string{"a.mv0L+a.ins0", "a.mv0L+a.mvL0", "a.delL+a.insL", "a.del0+a.ins0", "a.setL+a.insL"}},
 	{"txt", []string{"init.t"}, []string{"t.delM+t.insM", "t.delF+t.styF", "t.insM+t.styB", "t.repM+t.insM"}},
-	{"tree", []string{"init.tr"}, []string{"tr.delP0+tr.insT1", "tr.delT0+tr.insT0", "tr.sty0+tr.delT0", "tr.repP0+tr.insT1"}},
+	{"tree", []string{"init.tr"}, []string{"tr.delP0+tr.insT1", "tr.delT0+tr.insT0", "tr.sty0+tr.delT0", "tr.repP0+tr.insT1", "tr.splitP0+tr.delP0", "tr.splitP0+tr.sty0"}},
 	{"obj", []string{"init.o"}, []string{"o.del1+o.setin1", "o.setobj1+o.setin1", "o.setarr1+o.pushin1"}},
 	{"cnt", []string{"init.c"}, []string{"c.inc1+c.reset"}},
 }
@@ -53,6 +53,15 @@ func c02Scenarios(tier string) []*hist.Scenario {
 		for _, f := range conflictPairs {
 			for _, p := range f.ops {
 				add(f.name, f.init, strings.Split(p, "+"), 2, 2, 2, 0, 1, cfgs[0])
+			}
+		}
+		// the same with threshold 2: with threshold 1 EVERY pull is a snapshot, so
+		// the late client never gets the concurrent edit as a change on top of its
+		// snapshot; with 2 the attach (>= 2 changes behind) is a snapshot and the
+		// single change afterwards is pulled as a change (seeded change C02-3)
+		for _, f := range conflictPairs {
+			for _, p := range f.ops {
+				add(f.name, f.init, strings.Split(p, "+"), 2, 2, 2, 0, 1, cfgs[2])
 			}
 		}
 		for _, f := range coreFamilies() {
